@@ -4,7 +4,7 @@ from __future__ import annotations
 import ast
 import re
 
-from ..absint import new_interp, Interp, State, Activation, Outcome, HList, HDict, HInst, HGen, NONE, const, is_const, fmt, fmt_seg, fmt_tree, mk_not
+from ..absint import new_interp, Interp, State, Activation, Outcome, HList, HDict, HInst, HGen, NONE, const, is_const, fmt, fmt_seg, fmt_tree, mk_not, mk_cmp, mk_cond
 from ..names import N
 from ..common import AnalysisError, Report, read_text
 from ..facts import facts
@@ -41,7 +41,7 @@ def _re_flags(kwargs) -> int:
 def empty_forms(x):
     """Terms that are true exactly when string term x is empty."""
     ln = ("call", "len", (x,), ())
-    return [mk_not(x), ("cmp", "Eq", ln, const(0)), ("cmp", "Eq", x, const("")), mk_not(ln), ("cmp", "Lt", ln, const(1)), ("cmp", "LtE", ln, const(0))]
+    return [mk_not(x), ("cmp", "Eq", ln, const(0)), ("cmp", "Eq", x, const("")), mk_not(ln), mk_cmp("Lt", ln, const(1)), mk_cmp("LtE", ln, const(0))]
 
 
 def rule_line_basics(rep: Report, rid="C04.indent") -> None:
@@ -71,8 +71,8 @@ def rule_line_basics(rep: Report, rid="C04.indent") -> None:
     rep.used_function(fi.qualname)
     selft = ("param", fi.params()[0])
     n = ("param", fi.params()[1])
-    C = ("bool", "or", (("cmp", "Lt", n, const(0)), ("cmp", "Gt", n, ("attr", selft, "indent"))))
-    want = ("cond", C, ("attr", selft, N.TRIMMED), ("slice", ("attr", selft, N.RAW), n, NONE, NONE))
+    C = ("bool", "or", (mk_cmp("Lt", n, const(0)), mk_cmp("Gt", n, ("attr", selft, "indent"))))
+    want = mk_cond(C, ("attr", selft, N.TRIMMED), ("slice", ("attr", selft, N.RAW), n, NONE, NONE))
     rep.eq(rid, "get_line_text(n) = the trimmed line if n < 0 or n > indent, else raw[n:]", fmt(want, I), fmt(rv, I), file=LFILE, line=fi.node.lineno, function=fi.qualname)
     d = fi.node.args.defaults
     rep.ob(rid, "get_line_text() defaults to the fully trimmed line", len(d) == 1 and isinstance(d[0], ast.UnaryOp) and ast.unparse(d[0]) == "-1",
